@@ -35,7 +35,10 @@ func (c *spyCanceller) CancelBlockRequest(ctx context.Context, h bitcoin.Hash32)
 func VerifC16Downloader() {
 	ctx := ctxbg()
 	header := &wire.BlockHeader{Version: 1, Timestamp: 1600000000, Bits: 0x1d00ffff, Nonce: 9}
-	ntx := 1 + pick("ntx", 2)
+	ntx := 1
+	if verifParam("onetx", 0) == 0 {
+		ntx = 1 + pick("ntx", 2)
+	}
 	var txs []*wire.MsgTx
 	var txids []bitcoin.Hash32
 	for i := 0; i < ntx; i++ {
@@ -146,5 +149,145 @@ func VerifC16Downloader() {
 	_ = runErr
 	_ = threads.Interrupted
 	verifAssert(len(bd.Started) <= 2 && len(bd.Complete) <= 2, "signal-channel-over-capacity")
+	verifReach("done")
+}
+
+func init() {
+	verifHarnesses["VerifC16Manager"] = VerifC16Manager
+}
+
+// scriptedRequestor is the block source seen from the BlockManager: every RequestBlock creates
+// a "connection" whose behaviour (deliver, deliver the wrong block, never answer) is scripted.
+type scriptedRequestor struct {
+	header    *wire.BlockHeader
+	txs       []*wire.MsgTx
+	script    []int // per request: 0 deliver, 1 wrong block, 2 never answer, 3 refuse the request
+	requests  int
+	active    int
+	maxActive int
+	okReturns int // handlers that returned nil
+	ctx       context.Context
+	wg        sync.WaitGroup
+}
+
+func (r *scriptedRequestor) RequestBlock(ctx context.Context, hash bitcoin.Hash32, handler HandleBlock,
+	onStop OnStop) (BlockRequestCanceller, error) {
+	k := r.requests
+	r.requests++
+	behaviour := 0
+	if k < len(r.script) {
+		behaviour = r.script[k]
+	}
+	if behaviour == 3 {
+		return nil, ErrNodeNotAvailable
+	}
+	started := false
+	can := &spyCanceller{id: uuid.New(), started: func() bool { return started }}
+	if behaviour == 2 {
+		return can, nil
+	}
+	r.active++
+	if r.active > r.maxActive {
+		r.maxActive = r.active
+	}
+	r.wg.Add(1)
+	go func() {
+		ch := make(chan *wire.MsgTx, 10)
+		for _, tx := range r.txs {
+			ch <- tx
+		}
+		close(ch)
+		hd := r.header
+		if behaviour == 1 {
+			c := *r.header
+			c.Nonce++
+			hd = &c
+		}
+		started = true
+		err := handler(r.ctx, hd, uint64(len(r.txs)), ch)
+		if err == nil && behaviour == 0 {
+			r.okReturns++
+		}
+		r.active--
+		r.wg.Done()
+	}()
+	return can, nil
+}
+
+// VerifC16Manager: while the manager runs, a queued request ends in exactly one terminal signal
+// (complete closed, or one error value), is marked complete only after a downloader returned
+// nil for that hash, never has more than the configured number of concurrent downloads, and the
+// downloader list returns to empty.
+func VerifC16Manager() {
+	ctx := ctxbg()
+	header := &wire.BlockHeader{Version: 1, Timestamp: 1600000000, Bits: 0x1d00ffff, Nonce: 9}
+	txs := []*wire.MsgTx{mkTx(0)}
+	header.MerkleRoot = refMerkleRoot([]bitcoin.Hash32{*txs[0].TxHash()})
+	hash := *header.BlockHash()
+	spy := &spyProcessor{failAt: -1}
+	btm := &spyBlockTxManager{p: spy}
+	req := &scriptedRequestor{header: header, txs: txs, ctx: ctx}
+	nscript := verifParam("scripted", 2)
+	for k := 0; k < nscript; k++ {
+		req.script = append(req.script, pick("behaviour", 4))
+	}
+	concurrent := 1 + pick("concurrent", 2)
+	bm := NewBlockManager(btm, req, concurrent, 5*time.Second)
+	interrupt := make(chan interface{})
+	var runDone sync.WaitGroup
+	runDone.Add(1)
+	var runErr error
+	go func() {
+		runErr = bm.Run(ctx, interrupt)
+		runDone.Done()
+	}()
+
+	complete, abort := bm.AddRequest(ctx, hash, 700001, spy)
+	abortIt := nondetBool("abort-request")
+	if abortIt {
+		close(abort)
+	}
+	var result error
+	closed := false
+	select {
+	case err, ok := <-complete:
+		if !ok {
+			closed = true
+		} else {
+			result = err
+		}
+	}
+	// a second terminal signal must never come
+	extra := false
+	if !closed {
+		verifQuiesce()
+		select {
+		case _, ok := <-complete:
+			if ok {
+				extra = true
+			} else {
+				extra = true // both an error value and a close
+			}
+		default:
+		}
+	}
+	verifAssert(!extra, "request-got-two-terminal-signals")
+	if closed {
+		verifReach("completed")
+		verifAssert(req.okReturns >= 1, "marked-complete-without-a-successful-download")
+		verifAssert(!abortIt || req.okReturns >= 1, "aborted-request-completed")
+	} else {
+		verifReach("ended-with-error")
+		verifAssert(result != nil, "terminal-signal-without-value")
+	}
+	verifAssert(req.maxActive <= concurrent, "more-concurrent-downloads-than-configured")
+	close(interrupt)
+	runDone.Wait()
+	req.wg.Wait()
+	left := verifQuiesce()
+	verifAssert(left == 0, "goroutine-left-blocked:"+verifBlockedInfo())
+	verifAssert(len(bm.downloaders) == 0, "downloader-list-not-empty-at-the-end")
+	_ = runErr
+	verifObserve("manager", concurrent, abortIt, closed, req.requests)
 	verifReach("done")
 }
